@@ -61,11 +61,12 @@ var classes = map[string]req{
 }
 
 type remote struct {
-	p        *peer.Peer
-	writer   chan protocol.Message
-	fast     bool
-	unchoked bool // the remote's view: last of Unchoke / Choke seen
-	pending  []req
+	p         *peer.Peer
+	writer    chan protocol.Message
+	fast      bool
+	unchoked  bool // the remote's view: last of Unchoke / Choke seen
+	pending   []req
+	cancelled []req // cancelled requests whose RejectRequest has not been seen yet
 }
 
 type world struct {
@@ -135,6 +136,7 @@ func (w *world) drainWire(name string) {
 				r.unchoked = false
 				// requests sent before a choke are void
 				r.pending = nil
+				r.cancelled = nil
 			case protocol.Piece:
 				w.out.Pieces++
 				q := req{x.Index, x.Begin, uint32(len(x.Data))}
@@ -157,7 +159,20 @@ func (w *world) drainWire(name string) {
 				if !r.fast {
 					w.viol("reject-without-fast", fmt.Sprintf("RejectRequest sent to %s which has not the fast extension", name))
 				}
-				w.removePending(r, req{x.Index, x.Begin, x.Length})
+				// a reject that answers a Cancel refers to the request the
+				// Cancel has already removed, not to a further one
+				q := req{x.Index, x.Begin, x.Length}
+				answersCancel := false
+				for k, c := range r.cancelled {
+					if c == q {
+						r.cancelled = append(r.cancelled[:k:k], r.cancelled[k+1:]...)
+						answersCancel = true
+						break
+					}
+				}
+				if !answersCancel {
+					w.removePending(r, q)
+				}
 			}
 		default:
 			return
@@ -250,7 +265,9 @@ func Replay(in []byte) any {
 			}
 		case "Cancel":
 			q := classes[st.R]
-			w.removePending(r, q)
+			if w.removePending(r, q) && r.fast {
+				r.cancelled = append(r.cancelled, q)
+			}
 			err = peer.VerifHandleMessage(r.p, protocol.Cancel{Index: q.i, Begin: q.b, Length: q.l})
 		case "UploadTick":
 			err = peer.VerifUploadTick(r.p)
